@@ -92,7 +92,12 @@ func (rs *reqState) resetEpoch() {
 type hintGroup struct {
 	allOK    bool
 	regEpoch int // last epoch in which some request of the group was registered (-1: never)
+	// lowest tip the chain was rolled back to while no notifier instance was
+	// watching any request of the group (noLow: no such rollback)
+	unwatchedLow uint32
 }
+
+const noLow = ^uint32(0)
 
 // rescan is a HistoricalDispatch travelling through the simulated backend.
 type rescan struct {
@@ -156,8 +161,6 @@ type Sim struct {
 	R *simcore.Run
 	K Knobs
 	U *universe
-
-	epochStartTip, epochLowTip uint32 // tip when this notifier was built / lowest tip since
 
 	base   uint32 // height of the notifier at the very start; blocks at or below are prehistory
 	chain  []*blk
@@ -227,7 +230,6 @@ func (s *Sim) boot() {
 	s.ntUp = true
 	s.depth = 0
 	s.half = nil
-	s.epochStartTip, s.epochLowTip = s.tip(), s.tip()
 }
 
 // Close releases a possibly blocked notifier goroutine.
